@@ -112,7 +112,7 @@ def value_corpus():
     import datetime
     return [
         1, 0, 2, "a", "ab", True, None, 1.5,
-        (1, 2, 3), ((1, 2), (3, 4)), ("a", "b"),
+        (1, 2), ((1, 2), (3, 4)), ("a", "b"),
         utils.FrozenDict({"a": 1}), frozenset([1, 2]),
         datetime.timedelta(seconds=5),
         datetime.datetime(2020, 1, 2, tzinfo=datetime.timezone.utc),
@@ -309,8 +309,10 @@ def build(spec):
 
 
 def own_size(v):
+    """(what sys.getsizeof reports, the storage the value itself owns).  A FrozenDict is a
+    thin wrapper: the dict inside is its own storage, not a referenced element."""
     if isinstance(v, utils.FrozenDict):
-        return sys.getsizeof(v, 0), sys.getsizeof(v._d)
+        return sys.getsizeof(v, 0), max(sys.getsizeof(v, 0), sys.getsizeof(v._d))
     return sys.getsizeof(v, 0), None
 
 
@@ -330,7 +332,8 @@ def patch_payloads(ctx):
             def wrapped(*a, **k):
                 for v in list(a) + list(k.values()):
                     if isinstance(v, (str, tuple, list, dict, set, frozenset, utils.FrozenDict)):
-                        _recorded.append((name, sys.getsizeof(v, 0)))
+                        rep, inner = own_size(v)
+                        _recorded.append((name, inner or rep, type(v).__name__))
                 return orig(*a, **k)
             wrapped._c08_wrapped = True
             wrapped.__name__ = getattr(orig, "__name__", "payload")
